@@ -1428,6 +1428,17 @@ def gen_C17(rng, tier):
             if k == "anystr":
                 arg = hexs(_rand_string(rng, desc))
             h.ops.append("%s=%s@0 %s" % (h.newe(), k, arg))
+        # quotient rings: of a quotient ring (InputValue), modulo an ideal of another ring (InputIncompatible)
+        if rng.random() < 0.5:
+            ks = [0, 2] + ([1] if quot else [])
+            k, j = rng.choice(ks), rng.choice([0, 2])
+            def _canon_poly():
+                cs = [rand_elem(desc, rng) for _ in range(rng.randrange(1, 4))]
+                while cs and cs[-1] == "0":
+                    cs.pop()
+                return "/".join(cs) or "1"
+            gens = ";".join(_canon_poly() for _ in range(rng.randrange(1, 3)))
+            h.ops.append("uquot@%d %d:%s" % (k, j, gens))
         pool = good_e + bad_e + [z]
         for _ in range(rng.randrange(3, 14)):
             a, b = rng.choice(pool), rng.choice(pool)
@@ -1494,6 +1505,18 @@ def gen_C17(rng, tier):
         h.ops.append("%s,%s=quorem %s %s" % (h.newb(), h.newb(), q0, q2))
         h.ops.append("%s=ideal@0 %s" % (h.newi(), zq))
         h.ops.append("%s=ideal@0 %s %s" % (h.newi(), q0, q2))
+        if rng.random() < 0.5:
+            # a good ideal of ring 0, then: quotient of the quotient ring (ring 1), quotient of a foreign ring (ring 2)
+            one_ = h.elem("1")
+            g1 = h.bpoly(nterms=1, box=2, ring=0); h.ops.append("inc %s 1:1 %s" % (g1, one_))
+            g2 = h.bpoly(nterms=1, box=2, ring=0); h.ops.append("inc %s 0:2 %s" % (g2, one_))
+            gi = h.newi(); h.ops.append("%s=ideal@0 %s %s" % (gi, g1, g2))
+            if rng.random() < 0.5:
+                h.ops.append("isgroebner %s" % gi)
+            if bgens != "-":
+                h.ops.append("quotient@1 %s" % gi)
+            h.ops.append("quotient@2 %s" % gi)
+            h.ops.append("obs %s" % gi)
         if bgens != "-":
             q1r = h.bpoly(nterms=2, box=2, ring=1)
             for op in rng.sample(["plus", "minus", "times"], 2):
